@@ -113,7 +113,15 @@ package config
 // Listed: every address range of every pool accepted so far is in the list.
 //@ pred Listed(pools map[string]*Pool, cs []*net.IPNet) := forall n string, i int :: (n in pools) && 0 <= i && i < len(pools[n].CIDR) ==> (pools[n].CIDR[i] in cs)
 
+// NodeFree: no node address of the network's family lies inside it.
+//@ fun FamOfNet(c *net.IPNet) ipfamily.Family := ite(net.is4(c.IP), ipfamily.IPv4, ipfamily.IPv6)
+//@ pred NodeFree(nodes []corev1.Node, c *net.IPNet) := forall k int :: 0 <= k && k < len(k8snodes.NodeIPsForFamily(nodes, FamOfNet(c))) ==> !net.NetContains(*c, k8snodes.NodeIPsForFamily(nodes, FamOfNet(c))[k])
 //@ func poolsFor
+//@   ensures [nodeFree] result1 == nil ==> (forall n string, i int :: (n in result0.ByName) && 0 <= i && i < len(result0.ByName[n].CIDR) ==> NodeFree(resources.Nodes, result0.ByName[n].CIDR[i]))
+//@   loop 1 invariant forall x *net.IPNet :: (x in allCIDRs) ==> NodeFree(resources.Nodes, x)
+//@   loop 2 invariant forall x *net.IPNet :: (x in allCIDRs) ==> NodeFree(resources.Nodes, x)
+//@   loop 4 invariant forall k int :: 0 <= k && k < iter ==> !net.NetContains(*cidr, nodeIps[k])
+//@   loop 4 invariant 0 <= idx(2) && idx(2) < len(pool.CIDR) && cidr == pool.CIDR[idx(2)] && WfCIDR(cidr) && (forall b int :: 0 <= b && b < len(allCIDRs) ==> !Overlap(cidr, allCIDRs[b]))
 //@   ensures [keyed] result1 == nil ==> result0 != nil && result0.ByName != nil && PoolsKeyed(result0.ByName)
 //@   ensures [disjoint] result1 == nil ==> (forall n string, m string, i int, j int :: (n in result0.ByName) && (m in result0.ByName) && 0 <= i && i < len(result0.ByName[n].CIDR) && 0 <= j && j < len(result0.ByName[m].CIDR)
 //@       && result0.ByName[n].CIDR[i] != result0.ByName[m].CIDR[j] ==> !Overlap(result0.ByName[n].CIDR[i], result0.ByName[m].CIDR[j]))
